@@ -149,7 +149,12 @@ func c09RandomPad(rng *fw.Rand) (l, r, t, b int) {
 
 // c09Outcome runs the reader on the posed image and classifies the result.
 // outcome is "read", "notfound", "checksum", "format" or "" after a violation.
-func c09Outcome(r *fw.Rec, sym string, rd gozxing.Reader, img *image.Gray, hints map[gozxing.DecodeHintType]interface{}, want string, info map[string]interface{}) (outcome string, res *gozxing.Result) {
+//
+// oneDRot is the clockwise rotation of a 1-D pose (-1 for 2-D symbols): a 1-D
+// misread is qualified by the reading direction the reader claims, compared
+// with the true one (the ORIENTATION the reader ought to report is 0, 270,
+// 180, 90 for poses 0, 90, 180, 270).
+func c09Outcome(r *fw.Rec, sym string, rd gozxing.Reader, img *image.Gray, hints map[gozxing.DecodeHintType]interface{}, want string, info map[string]interface{}, oneDRot int) (outcome string, res *gozxing.Result) {
 	var err error
 	msg, stack, panicked := fw.Guard(func() {
 		var bmp *gozxing.BinaryBitmap
@@ -182,7 +187,18 @@ func c09Outcome(r *fw.Rec, sym string, rd gozxing.Reader, img *image.Gray, hints
 	}
 	if got := res.GetText(); got != want {
 		info["returned"] = got
-		r.Violation("misread", sym+":misread", fmt.Sprintf("%s reader returned %q for a symbol that carries %q", sym, trunc(got, 80), trunc(want, 80)), info)
+		sig, how := sym+":misread", ""
+		if oneDRot >= 0 {
+			claimed, _ := res.GetResultMetadata()[gozxing.ResultMetadataType_ORIENTATION].(int)
+			truth := (360 - oneDRot) % 360
+			info["orientation_claimed"] = claimed
+			info["orientation_true"] = truth
+			if (claimed-truth+360)%360 == 180 {
+				sig = sym + ":misread:row-accepted-in-reverse-direction"
+				how = fmt.Sprintf(" (the reader accepted the row in the wrong reading direction: claims orientation %d, the symbol lies at %d)", claimed, truth)
+			}
+		}
+		r.Violation("misread", sig, fmt.Sprintf("%s reader returned %q for a symbol that carries %q%s", sym, trunc(got, 80), trunc(want, 80), how), info)
 		return "", nil
 	}
 	return "read", res
@@ -409,7 +425,7 @@ func c09QRCase(r *fw.Rec, v int, nposes int, sample bool) {
 		p.PadL, p.PadR, p.PadT, p.PadB = c09RandomPad(rng)
 		img := c09Render(full, p)
 		info := c09Merge(s.info(), p)
-		out, _ := c09Outcome(r, "QR_CODE", rd, img, p.hints(), s.text, info)
+		out, _ := c09Outcome(r, "QR_CODE", rd, img, p.hints(), s.text, info, -1)
 		if out == "" {
 			return
 		}
@@ -491,7 +507,7 @@ func c09DMCase(r *fw.Rec, k int, variant int, nposes int, sample bool) {
 		}
 		img := c09Render(full, p)
 		info := c09Merge(base, p)
-		out, _ := c09Outcome(r, "DATA_MATRIX", rd, img, p.hints(), content, info)
+		out, _ := c09Outcome(r, "DATA_MATRIX", rd, img, p.hints(), content, info, -1)
 		if out == "" {
 			return
 		}
@@ -638,7 +654,7 @@ func c09OneDCase(r *fw.Rec, od c09OneD, nrandom int, sample bool) {
 		img := c09Render(mod, p)
 		info := c09Merge(base, p)
 		info["image_height_modules"] = gh
-		out, res := c09Outcome(r, od.name, rd, img, p.hints(), want, info)
+		out, res := c09Outcome(r, od.name, rd, img, p.hints(), want, info, p.Rot)
 		if out == "" {
 			return
 		}
@@ -696,7 +712,7 @@ func c09OneDCase(r *fw.Rec, od c09OneD, nrandom int, sample bool) {
 		img := c09Render(m, p)
 		info := c09Merge(base, p)
 		info["image_height_modules"] = h
-		out, _ := c09Outcome(r, od.name, rd, img, p.hints(), want, info)
+		out, _ := c09Outcome(r, od.name, rd, img, p.hints(), want, info, p.Rot)
 		if out == "" {
 			return
 		}
@@ -705,10 +721,56 @@ func c09OneDCase(r *fw.Rec, od c09OneD, nrandom int, sample bool) {
 	}
 }
 
+// c09OneDSweep: many symbols, one cheap pose each (upside down or upright at
+// 2..3 px per module, 30 rows, >= 12 px of quiet zone): the rot180 obligation and the
+// never-misread oracle at a volume that exposes per-number ambiguities of a symbology.
+func c09OneDSweep(r *fw.Rec, od c09OneD, n int) {
+	rng := r.Rng
+	ws := writerByName(od.name)
+	rd := od.reader()
+	for i := 0; i < n; i++ {
+		toWriter, want := c09OneDContent(rng, ws)
+		bm, err := ws.New().Encode(toWriter, ws.Format, 0, 30, nil)
+		r.Evals(1)
+		if err != nil {
+			r.Tally(od.name + "_writer_refused")
+			continue
+		}
+		p := c09Pose{Scale: 2 + rng.Intn(2), Rot: 180, PadL: 12 + rng.Intn(12), PadR: 12 + rng.Intn(12), PadT: 4, PadB: 4}
+		if i%8 == 7 {
+			p.Rot = 0
+		}
+		img := c09Render(bitMatrixToBools(bm), p)
+		info := c09Merge(map[string]interface{}{"symbology": od.name, "to_writer": toWriter, "content": want, "image_height_modules": 30}, p)
+		out, res := c09Outcome(r, od.name, rd, img, nil, want, info, p.Rot)
+		if out == "" {
+			return
+		}
+		c09Tally(r, od.name, p, out, false)
+		if p.Rot == 0 {
+			continue
+		}
+		if out != "read" {
+			r.Violation("orientation", od.name+":rot180-not-read", fmt.Sprintf("%s symbol %q turned upside down (scale %d, %d rows, quiet >= 12 px) was not read: %s", od.name, want, p.Scale, 30*p.Scale, out), info)
+			return
+		}
+		if v, isInt := res.GetResultMetadata()[gozxing.ResultMetadataType_ORIENTATION].(int); !isInt || v != 180 {
+			r.Violation("orientation", od.name+":rot180-orientation-metadata", fmt.Sprintf("%s symbol %q turned upside down was read but ORIENTATION metadata is %v, expected 180", od.name, want, res.GetResultMetadata()[gozxing.ResultMetadataType_ORIENTATION]), info)
+			return
+		}
+		r.Tally(od.name + "_rot180_read_with_orientation")
+		r.Tally(od.name + "_sweep_rot180_ok")
+		r.Tally("oned_rot180_obligations_met")
+		if i%16 == 0 {
+			r.Nontrivial("oned|" + od.name + "|" + toWriter)
+		}
+	}
+}
+
 // ---------------------------------------------------------------------------
 
 func c09(c *fw.Ctx) {
-	c.Rule("symbols from the library's writers (Encode(content, format, 0, h, hints): 1 px/module with the default quiet zone; QR: forced version 1..40 x random level x mask hint none/0..7, contents numeric (incl. digit runs), alphanumeric, UTF-8, ISO-8859-1 byte payloads imitating finder patterns (runs of 0x00/0xFF, 1011101 bit patterns, 7-byte finder rows, alternation) and random bytes; Data Matrix: all 30 sizes via digit strings of 2 x data-codewords length under the shape hint, digit runs, letters; nine 1-D symbologies with contents from the writers table and digit/character runs, writer image height 1..60 rows); posed by the harness only: white padding 0..40 px per side (independent, all-zero, uniform, one side bare), pixel replication 1..6, clockwise rotation 0/90/180/270, transposition (QR, 1/3 of poses); read through NewBinaryBitmapFromImage + the matching single-format reader with no hints or TRY_HARDER; per QR symbol additionally Decoder.Decode of the bare upright and transposed module matrix; per 1-D symbol the obligations rot180 (default and TRY_HARDER), rot90/rot270 (TRY_HARDER) under generous conditions (scale 2..6, 30..60 rows, padding >= 10 px); distinct = distinct (symbology, content, symbol parameters)")
+	c.Rule("symbols from the library's writers (Encode(content, format, 0, h, hints): 1 px/module with the default quiet zone; QR: forced version 1..40 x random level x mask hint none/0..7, contents numeric (incl. digit runs), alphanumeric, UTF-8, ISO-8859-1 byte payloads imitating finder patterns (runs of 0x00/0xFF, 1011101 bit patterns, 7-byte finder rows, alternation) and random bytes; Data Matrix: all 30 sizes via digit strings of 2 x data-codewords length under the shape hint, digit runs, letters; nine 1-D symbologies with contents from the writers table and digit/character runs, writer image height 1..60 rows); posed by the harness only: white padding 0..40 px per side (independent, all-zero, uniform, one side bare), pixel replication 1..6, clockwise rotation 0/90/180/270, transposition (QR, 1/3 of poses); read through NewBinaryBitmapFromImage + the matching single-format reader with no hints or TRY_HARDER; per QR symbol additionally Decoder.Decode of the bare upright and transposed module matrix; per 1-D symbol the obligations rot180 (default and TRY_HARDER), rot90/rot270 (TRY_HARDER) under generous conditions (scale 2..6, 30..60 rows, padding >= 10 px); an upside-down sweep of 250 x 12 (quick) / 250 x 200 (thorough) further symbols per 1-D symbology with one cheap pose each (7/8 rot180, 1/8 upright; scale 2..3, 30 rows, quiet >= 12 px) so that per-number ambiguities with a rate of 1e-3 (quick) / 1e-4 (thorough) are met; 1-D contents beyond the writers table: Codabar full data alphabet with explicit/alternative guards, Code 128 and Code 93 all of ASCII, ITF 16..40 digits; distinct = distinct (symbology, content, symbol parameters)")
 	c.Assume("canonical 1-D texts are computed independently (onedref.Mod10 / UPCEExpand for EAN-13, EAN-8, UPC-A, UPC-E; content itself for Code 39/93/128, ITF, Codabar whose guards the reader strips); UPC-E is always written from 8 digits with the reference check digit")
 	c.Assume("2-D symbols through the detector and 1-D symbols in arbitrary poses may be read or refused with NotFound/Checksum/Format (tallied per symbology, scale, rotation); ORIENTATION metadata of sideways reads and of upright reads, the barcode format field and result points are don't-care here")
 	c.Assume("only the single-format reader matching the writer is used (multi-format readers legitimately report UPC-A as EAN-13 etc.); Code 39 is read with the default (non-extended, no check digit) reader; ITF lengths 6..14 (the reader's default allowed lengths); Codabar >= 2 data characters")
@@ -728,7 +790,7 @@ func c09(c *fw.Ctx) {
 		c.Run(fmt.Sprintf("dm/%02d/%d", k, i), func(r *fw.Rec) { c09DMCase(r, k, i/30, 12, i < 2) })
 	}
 	// 1-D
-	no := c.Pick(80, 1000)
+	no := c.Pick(80, 2000)
 	for _, od := range c09OneDs {
 		od := od
 		for i := 0; i < no; i++ {
@@ -737,7 +799,16 @@ func c09(c *fw.Ctx) {
 		}
 	}
 
-	c.Floor("poses", int64(c.Pick(12000, 250000)))
+	// upside-down sweep: 250 symbols per case
+	nsw := c.Pick(12, 200)
+	for _, od := range c09OneDs {
+		od := od
+		for i := 0; i < nsw; i++ {
+			c.Run(fmt.Sprintf("oned180/%s/%d", od.name, i), func(r *fw.Rec) { c09OneDSweep(r, od, 250) })
+		}
+	}
+
+	c.Floor("poses", int64(c.Pick(35000, 700000)))
 	c.Floor("qr_decoder_upright_ok", int64(c.Pick(300, 8000)))
 	c.Floor("qr_decoder_mirrored_ok", int64(c.Pick(300, 8000)))
 	c.Floor("QR_CODE_read_at_scale_ge3", int64(c.Pick(600, 15000)))
@@ -753,8 +824,8 @@ func c09(c *fw.Ctx) {
 		c.Floor(fmt.Sprintf("DATA_MATRIX_size_%dx%d_read_at_scale_ge3", s.Rows, s.Cols), 1)
 	}
 	for _, od := range c09OneDs {
-		c.Floor(od.name+"_rot180_read_with_orientation", int64(c.Pick(120, 1500)))
-		c.Floor(od.name+"_sideways_tryharder_read", int64(c.Pick(120, 1500)))
-		c.Floor(od.name+"_read", int64(c.Pick(300, 4000)))
+		c.Floor(od.name+"_rot180_read_with_orientation", int64(c.Pick(1500, 30000)))
+		c.Floor(od.name+"_sideways_tryharder_read", int64(c.Pick(120, 3000)))
+		c.Floor(od.name+"_read", int64(c.Pick(2000, 40000)))
 	}
 }
